@@ -176,8 +176,8 @@ func (t *TLSHandshakeRecordClientHello) decodeFromBytes(data []byte, df gopacket
 				entryType := data[6]
 				if serverNameExtensionLength > 0 && entryType == 0 && len(data) > 8 { // 0 = DNS hostname
 					hostnameLength := binary.BigEndian.Uint16(data[7:9])
-					if len(data) > int(8+hostnameLength) {
-						t.SNI = data[9 : 9+hostnameLength]
+					if len(data) > 8+int(hostnameLength) {
+						t.SNI = data[9 : 9+int(hostnameLength)]
 					}
 				}
 			}
